@@ -37,6 +37,9 @@ type Check struct {
 	Rule      string // how cases are enumerated / what is non-trivial
 	Assume    []string
 	CrashSafe bool // record the current case before running it (fatal errors, hangs)
+	// MemLimit is the address-space cap of a worker in bytes (CrashSafe checks only); 0 = 3 GiB.  Checks whose legal
+	// inputs are as large as the documented limits (10 MiB, 1M tokens) need more head-room than the default.
+	MemLimit  uint64
 	Serial    bool // run in one worker (cases are not independent)
 	Procs     int  // 0 = default
 	Enumerate func(e *Enum)
@@ -379,7 +382,11 @@ func runWorker(ck *Check, tier, worker string, skip int64, rkey string) int {
 		debug.SetMaxStack(64 << 20)
 		// address-space cap so that a runaway allocation dies here, not the sandbox
 		var rl syscall.Rlimit
-		rl.Cur, rl.Max = 3<<30, 3<<30
+		lim := uint64(3 << 30)
+		if ck.MemLimit > 0 {
+			lim = ck.MemLimit
+		}
+		rl.Cur, rl.Max = lim, lim
 		syscall.Setrlimit(syscall.RLIMIT_AS, &rl)
 	}
 	ck.Enumerate(e)
